@@ -19,9 +19,23 @@ type vchan struct {
 	recvWait int
 	taken    int64 // number of items ever received (for unbuffered rendezvous)
 	sent     int64
+	epoch    int
+}
+
+// touchChan saves the state of a channel created before the current path
+// ahead of its first mutation.
+func (i *interpreter) touchChan(c *vchan) {
+	if c == nil || !i.logging || c.epoch == i.epoch {
+		return
+	}
+	saved := *c
+	saved.buf = append([]value{}, c.buf...)
+	c.epoch = i.epoch
+	i.undoFns = append(i.undoFns, func() { *c = saved })
 }
 
 func (i *interpreter) chanSend(c *vchan, v value) {
+	i.touchChan(c)
 	i.yieldPoint("send")
 	if c == nil {
 		i.block(func() bool { return false }, "send on nil channel")
@@ -50,6 +64,7 @@ func (i *interpreter) chanSend(c *vchan, v value) {
 }
 
 func (i *interpreter) chanRecv(c *vchan) (value, bool) {
+	i.touchChan(c)
 	i.yieldPoint("recv")
 	if c == nil {
 		i.block(func() bool { return false }, "receive from nil channel")
@@ -67,6 +82,7 @@ func (i *interpreter) chanRecv(c *vchan) (value, bool) {
 }
 
 func (i *interpreter) chanClose(c *vchan) {
+	i.touchChan(c)
 	i.yieldPoint("close")
 	if c == nil {
 		panic(targetPanic{v: iface{i.runtimeErrorString, "close of nil channel"}})
@@ -88,6 +104,7 @@ func (i *interpreter) selectStmt(fr *frame, instr *ssa.Select) value {
 	var cases []scase
 	for _, st := range instr.States {
 		sc := scase{c: fr.get(st.Chan).(*vchan), send: st.Dir == types.SendOnly}
+		i.touchChan(sc.c)
 		if sc.send {
 			sc.v = fr.get(st.Send)
 		}
